@@ -384,6 +384,12 @@ def gen_history(rng, name):
         except Exception:
             pass
         h.append(step)
+    if rng.random() < .08:
+        # every entry deleted one by one ("all defaults"): an empty configuration is still a configuration of its variant
+        for k in list(model.keys()):
+            h.append({'op': 'del', 'path': [k], 'export': False})
+        h.append({'op': 'len', 'path': [], 'export': True})
+        return h
     if rng.random() < .25:
         # an option group emptied and then refilled through key paths (the group itself may be replaced by an empty dict here:
         # it stays a dictionary)
